@@ -5,7 +5,7 @@ import json
 import os
 import shutil
 
-from .. import lex, obs, corpus, fusion, cfggen
+from .. import lex, obs, corpus, fusion, cfggen, hazard
 from ..common import pmap, log, tlc_retry, write_ndjson, SPEC, sh
 from . import pipeline_engine as pe
 
@@ -315,6 +315,7 @@ def run(ctx):
     pipeline_model(ctx)
     fusion_part(ctx)
     jobs = universe(ctx, 200 if quick else 100000, 150 if quick else 2500)
+    jobs += hazard.jobs(ctx.unc(), ctx.rng, quick, ctx.work.sub("dense"))
     res = observe_jobs(ctx, jobs)
     events = [e for evs, info, j in res for e in evs]
     ran = sum(1 for evs, info, j in res if info["rc"] == 0)
